@@ -22,7 +22,8 @@ class MocksEmitter:
     """Generates mock helper classes for testing."""
 
     def __init__(self, context: RenderContext) -> None:
-        self.endpoint_visitor = EndpointVisitor()
+        # Same schema registry as the endpoints emitter uses, so that mock signatures carry the same types as the clients
+        self.endpoint_visitor = EndpointVisitor(context.parsed_schemas or {})
         self.client_visitor = ClientVisitor()
         self.context = context
 
